@@ -98,6 +98,42 @@ def dTie : Desc :=
    { id := "c", zone := "y", tokens := [3, 4294967294] }]
 example : ZoneRing { rf := 2, zoneAware := true } C01.opWrite dTie := ⟨by decide, rfl, by decide, by decide⟩
 
+/-- **THE HEADLINE, as one theorem.** On a `QuantRing cfg op now d` — ONE predicate: the descriptor is well-formed
+(`WFR`), the ring is zone-aware with replication factor = number of zones, every instance is in a zone, every
+zone holds a token, and every instance is healthy and non-extending for the operation — for every registered
+instance `GetTokenRangesForInstance` returns an ascending list of closed ranges that contains a key EXACTLY
+WHEN the instance is a member of the replication set `Ring.Get` returns for that key (C01's `get`: the walk of
+`findInstancesForKey` followed by the health filter and quorum arithmetic, on the sorted token circle). -/
+theorem ranges_iff_get (cfg : C01.Cfg) (op : C01.Op) (now : Int) (d : Desc) (q : QuantRing cfg op now d)
+    (inst : Inst) (hi : inst ∈ d) :
+    ∃ tr, rangesForInstance d cfg.zoneAware cfg.rf inst.id = .ok tr ∧ tr.length % 2 = 0 ∧ Asc tr ∧
+      ∀ k, k ≤ maxU32 → (includesKey tr k = true ↔
+        ∃ rs, C01.get cfg d (C01.sortedTokens d) k op now = .ok rs ∧ inst ∈ rs.instances) :=
+  PfC14.ranges_iff_get cfg op now d q inst hi
+
+/-- non-vacuity: a two-zone ring with tokens 0, 1, 2^32-1 meets every hypothesis (`Write`, all ACTIVE and fresh) -/
+example : QuantRing { rf := 2, zoneAware := true } C01.opWrite 0 dTie := by
+  refine ⟨⟨by decide, by decide, by decide, by decide⟩, rfl, by decide, by decide, ?_, by decide, by decide⟩
+  intro z hz
+  have : z = "x" ∨ z = "y" := by
+    have : zonesOf dTie = ["x", "y"] := by decide
+    rw [this] at hz; simpa using hz
+  rcases this with rfl | rfl <;>
+    simp [zoneTokens, tokenInsts, dTie, List.mergeSort, List.MergeSort.Internal.splitInTwo]
+
+/-- `WFR` is stronger than C01's/C05's well-formedness (it adds ascending token lists and the 32-bit bound) -/
+theorem wfr_implies_c01_wf (d : Desc) (h : WFR d) : C01.WFRing d := wfr_wfring h
+
+/-- **ring-level zone tiling**: on a well-formed ring, in every zone that holds a token, every key is in the
+ranges `GetTokenRangesForInstance` reports for exactly one instance of that zone (no gap, no overlap). -/
+theorem instance_zone_tiling (d : Desc) (h : WFR d) (z : String) (hz : z ≠ "") (hne : zoneTokens d z ≠ [])
+    (k : Nat) (hk : k ≤ maxU32) :
+    ∃ inst ∈ d, inst.zone = z ∧
+      (∃ tr, rangesForInstance d true (zonesOf d).length inst.id = .ok tr ∧ includesKey tr k = true) ∧
+      ∀ j ∈ d, j.zone = z → (∃ tr, rangesForInstance d true (zonesOf d).length j.id = .ok tr ∧ includesKey tr k = true) →
+        j = inst :=
+  PfC14.instance_zone_tiling d h z hz hne k hk
+
 /-! ### Beyond the quantified case: any operation, instances that extend the replica set
 
 Token ranges ignore instance state and health; `Ring.Get` does not. `ZoneRingAny`: well-formed, zone-aware,
@@ -145,11 +181,43 @@ theorem ranges_vs_get_divergence_witness :
     (C01.specGet cfgDiverge C01.opWrite dDiverge 5 0).instances.map (·.id) = ["C", "B"] :=
   ⟨⟨by decide, rfl, by decide⟩, diverge_ranges_A, by decide, diverge_ranges_B, by decide, diverge_get.1, diverge_get.2.1, diverge_get.2.2⟩
 
-/-! ### No inconsistent-token errors (link to C05: every reachable descriptor is well-formed) -/
+/-! ### The `ErrInconsistentTokensInfo` returns
 
-/-- For EVERY descriptor, configuration and instance id, `GetTokenRangesForInstance` never takes one of its
-`ErrInconsistentTokensInfo` returns (a token of the zone's token list missing from `ringInstanceByToken`):
-both are built from the same descriptor. -/
+`rangesForInstanceIdx` / `buildLookupsIdx` are the functions over the ring's CACHED indexes
+(`ringTokensByZone`, `ringInstanceByToken`; `ringTokens`, `partitionByToken`, the partition map) as explicit
+arguments that may disagree — these variants CAN return the error. -/
+
+/-- **exactly when** `GetTokenRangesForInstance` returns `ErrInconsistentTokensInfo`: the call passes the
+configuration checks and some token of the zone's cached token list has no entry in the cached
+token→instance index. -/
+theorem ranges_inconsistent_iff_index_gap (walk : List (Nat × Bool) → List Nat) (d : Desc) (nz : Nat)
+    (tbz : String → List Nat) (byTok : Nat → Option Inst) (za : Bool) (rf : Nat) (id : String) :
+    rangesForInstanceIdx walk d nz tbz byTok za rf id = .error .inconsistent ↔
+      ∃ inst, d.get? id = some inst ∧ inst.zone ≠ "" ∧ za = true ∧ rf = nz ∧ tbz inst.zone ≠ [] ∧
+        ∃ t ∈ tbz inst.zone, byTok t = none :=
+  rangesIdx_inconsistent_iff walk d nz tbz byTok za rf id
+
+/-- the branch is reachable on the checked variant: an index that lacks token 7 -/
+theorem ranges_inconsistent_witness :
+    rangesForInstanceIdx instRangesOf [{ id := "a", zone := "z", tokens := [7] }] 1 (fun _ => [7]) (fun _ => none) true 1 "a"
+      = .error .inconsistent := by decide
+
+/-- **exactly when** `NewPartitionRing` returns `ErrInconsistentTokensInfo`: a ring token without an entry in
+`partitionByToken`, or whose partition id is missing from the partition map. -/
+theorem partition_ring_inconsistent_iff_index_gap (toks : List Nat) (byTok : Nat → Option Int)
+    (getPart : Int → Option Part) :
+    buildLookupsIdx toks byTok getPart = .error .inconsistent ↔
+      ∃ t ∈ toks, byTok t = none ∨ ∃ pid, byTok t = some pid ∧ getPart pid = none :=
+  buildLookupsIdx_inconsistent_iff toks byTok getPart
+
+theorem partition_ring_inconsistent_witness :
+    buildLookupsIdx [7] (fun _ => some 3) (fun _ => none) = .error .inconsistent := by decide
+
+/-- COROLLARY for indexes that are all derived from ONE descriptor, as `setRingStateFromDesc` derives them (that
+the cached fields of a long-lived client do stay in step with the descriptor is C13's subject; that every
+reachable descriptor is well-formed is C05's): then no token of a zone list can lack an entry, for any
+descriptor, configuration and instance id. True by construction of the derived indexes — a sanity statement
+about the model's derivation, not additional coverage of the code. -/
 theorem ranges_never_inconsistent (d : Desc) (za : Bool) (rf : Nat) (id : String) :
     rangesForInstance d za rf id ≠ .error .inconsistent ∧ rangesForInstance d za rf id ≠ .error .panic :=
   rangesForInstanceWith_consistent instRangesOf d za rf id
@@ -166,8 +234,8 @@ example : C01.WFRing dTie ∧ zoneTokens dTie "x" ≠ [] := by
   refine ⟨by decide, ?_⟩
   simp [zoneTokens, tokenInsts, dTie, List.mergeSort, List.MergeSort.Internal.splitInTwo]
 
-/-- `NewPartitionRing` (`buildRingTokenPartitionLookups`) never fails with `ErrInconsistentTokensInfo`, for
-EVERY partition descriptor … -/
+/-- the same COROLLARY for `NewPartitionRing`, which derives its three arguments from the one descriptor it is given
+(again true by construction; the code-relevant statement is `partition_ring_inconsistent_iff_index_gap`) … -/
 theorem partition_ring_never_inconsistent (d : PDesc) : ∃ l, buildLookups d = .ok l :=
   buildLookups_ok d
 
@@ -181,14 +249,15 @@ theorem partition_ranges_total_on_wf (d : PDesc) (h : WFP d) :
   ⟨buildLookups_eq d h, fun p hp => rangesForPartition_consistent d h p hp, fun k e he => activeFor_error_class d k e he⟩
 
 /-- **`GetTokenRangesForInstance` is exact** on every well-formed zone-aware ring with `rf = #zones`:
-it succeeds whenever the instance's zone holds a token, and the reported ranges contain a key exactly
+it succeeds whenever the instance's zone holds a token, the reported list is ascending and of even length (the
+hypotheses of `includes_iff_interval`), and the reported ranges contain a key exactly
 when the lookup inside the instance's zone returns the instance — including key 0, tokens 0, 1,
 2^32-1 and the wrap-around. -/
 theorem instance_ranges_exact (d : Desc) (h : WFR d) (inst : Inst) (hi : inst ∈ d) (hz : inst.zone ≠ "")
     (hne : zoneTokens d inst.zone ≠ []) :
-    ∃ tr, rangesForInstance d true (zonesOf d).length inst.id = .ok tr ∧
+    ∃ tr, rangesForInstance d true (zonesOf d).length inst.id = .ok tr ∧ tr.length % 2 = 0 ∧ Asc tr ∧
       ∀ k, k ≤ maxU32 → (includesKey tr k = true ↔ lookupInZone d inst.zone k = some inst.id) :=
-  rangesForInstance_exact d h inst hi hz hne
+  rangesForInstance_exact_shape d h inst hi hz hne
 
 /-- the same at the level of the walk: for EVERY strictly ascending zone token list with "mine" flags. -/
 theorem instance_ranges_exact_walk (zt : List (Nat × Bool)) (hs : SAsc (zt.map (·.1)))
